@@ -154,8 +154,8 @@ func (sc *c07Scenario) build() *material {
 			} else {
 				m.t4 = false
 			}
-			if m.declared < 0 {
-				m.t4 = false
+			if m.declared == -1 && !strings.Contains(ls[0], " -1 bp") {
+				m.t4 = false // the declared length could not be read off the text
 			}
 		}
 	}
@@ -361,6 +361,9 @@ func genT4Edit(r *core.RNG, length int) textEdit {
 	case 1:
 		if r.Chance(1, 4) {
 			// numbers at the edge of what an int can hold
+			if r.Chance(1, 3) {
+				return textEdit{Op: "set-length", N: []int{-1, -2, -5, -9, -10, -60, -9223372036854775808}[r.Intn(7)]}
+			}
 			return textEdit{Op: "set-length", N: []int{9223372036854775807, 9223372036854775806, 4611686018427387904, 1 << 62, 1 << 32, 1<<31 - 1, 3074457345618258603, 999999999999999999}[r.Intn(8)]}
 		}
 		return textEdit{Op: "set-length", N: r.Range(0, length+200)}
